@@ -95,6 +95,7 @@ def units(tier, seed):
         for i in range(len(S[name])):
             for n in range(0, NMAX[tier] + 1):
                 us.append({'kind': 'fn', 'name': name, 'i': i, 'n': n, 'tier': tier, 'seed': seed})
+    us.append({'kind': 'history', 'tier': tier, 'seed': seed})
     return us
 
 
@@ -113,6 +114,8 @@ def mpdiff(g, x, n):
 
 
 def run_unit(u):
+    if u['kind'] == 'history':
+        return run_history(u)
     out = {'evals': 0, 'nontrivial': 0, 'fails': [], 'samples': [], 'maxima': {}, 'counters': {}, 'lists': {}}
     if u['kind'] == 'uncovered':
         out['lists']['exported_but_not_covered'] = [u['name']]
@@ -177,5 +180,60 @@ def run_unit(u):
     return out
 
 
+def run_history(u):
+    """all functions called one after another IN ONE PROCESS, for each order n, in forward and in reverse order of the function
+    table, and on arrays whose entries are NEARLY equal: a value may only depend on the arguments of the call - not on
+    which function or order was evaluated before, and not on neighbouring array entries"""
+    out = {'evals': 0, 'nontrivial': 0, 'fails': [], 'samples': [], 'maxima': {}, 'counters': {}, 'lists': {}}
+    S = specs()
+    names = [n for n in exported() if n in S]
+    nmax = min(NMAX[u['tier']], 5)
+    refs = {}
+
+    def ref(name, i, n, x):
+        k = (name, i, n, x)
+        if k not in refs:
+            label, extras, g, dom, exact = S[name][i]
+            try:
+                refs[k] = exact(x, n) if exact is not None else mpdiff(g, x, n)
+            except Exception:
+                refs[k] = None
+        return refs[k]
+    seen = set()
+    for rnd, order in enumerate((names, names[::-1], names)):
+        for n in ([2, 3, 1, nmax] if rnd < 2 else [nmax, 2]):
+            for name in order:
+                for i in range(len(S[name])):
+                    label, extras, g, dom, exact = S[name][i]
+                    pts = [x for x in (0.75, 1.25, -0.5, 2.5) if dom(x)][:2]
+                    if not pts:
+                        continue
+                    # entries differing by ~1e-7 relative, and a plain pair of distinct points
+                    for arr in (np.array([pts[0], pts[0] * (1 + 2.0 ** -23), pts[0] * (1 - 2.0 ** -22)]), np.array(pts)):
+                        try:
+                            got = np.asarray(getattr(ND, name)(*(extras + (arr.copy(),)), n=n), dtype=float)
+                        except Exception as ex:
+                            sig = 'C16|%s|history|raises' % label
+                            if sig not in seen:
+                                seen.add(sig)
+                                out['fails'].append({'sig': sig, 'case': dict(u), 'detail': {'error': str(ex)[:150], 'n': n}})
+                            continue
+                        for k, x in enumerate(arr):
+                            r = ref(name, i, n, float(x))
+                            if r is None:
+                                continue
+                            out['evals'] += 1
+                            out['nontrivial'] += 1 if r != 0 else 0
+                            if not abs(got[k] - r) <= 1e-9 * max(1.0, abs(r)):
+                                sig = 'C16|%s|history|n=%d|%s' % (label, n, 'nearly equal entries' if len(arr) == 3 else 'after other calls')
+                                if sig not in seen:
+                                    seen.add(sig)
+                                    out['fails'].append({'sig': sig, 'case': dict(u), 'detail': {'x': float(x), 'n': n, 'got': float(got[k]), 'expected': float(r), 'round': rnd}})
+    out['samples'] = [{'history': 'all functions x n in (2,3,1,nmax), table order then reversed then again', 'functions': len(names)}]
+    return out
+
+
 def replay(case):
+    if case.get('kind') == 'history':
+        return run_history(case)['fails']
     return run_unit(case)['fails']
